@@ -87,6 +87,21 @@ class Ctx:
         return norm(("proj", self.t_slice_of_data(self.t_dataval(fr)), ("index", mk_int(i, "usize"))))
 
 
+def cell_dom(cons, t):
+    """explicit set of the values 0..255 of coordinate t admitted by the path (equalities, exclusions and constant bounds)"""
+    d = cons.get(t)
+    b = cons.get(("bnd", t))
+    if d is None and b is None:
+        return None
+    vals = set(range(256))
+    if d is not None:
+        vals = (vals & set(d[1])) if d[0] == "in" else (vals - set(d[1]))
+    if b is not None:
+        lo, hi = b[1], b[2]
+        vals = set(v for v in vals if (lo is None or v >= lo) and (hi is None or v <= hi))
+    return ("in", frozenset(vals))
+
+
 def dom_admits(d, v):
     if d is None:
         return True
@@ -171,17 +186,33 @@ def extract_fm(cx, chk, pid):
     fr = ("sym", "frame", fn["body"]["locals"][1]["ty"]["s"])
     rows = []
     T, L, B = cx.t_type(fr), cx.t_len(fr), cx.t_byte(fr, 0)
+    def about_cell(t):
+        """t is one of the three cell coordinates, or a comparison of one of them with a constant (reflected in its domain/bounds)"""
+        if t in (T, L, B):
+            return True
+        if t[0] == "app" and t[1] in ("Eq", "Ne", "Lt", "Le", "Gt", "Ge") and len(t[2]) == 2:
+            a, b = t[2]
+            return (a in (T, L, B) and b[0] == "int") or (b in (T, L, B) and a[0] == "int")
+        if t[0] == "app" and t[1] == "Not" and len(t[2]) == 1:
+            return about_cell(t[2][0])
+        if t[0] == "and":
+            return all(about_cell(x) for x in t[1])
+        if t[0] == "deq":
+            return t[1] in (T, L, B)
+        return False
+
     for p in paths:
         if p.kind != "return":
             chk.ob("A1.total", "From<Frame> for Message never panics on a path (%s)" % (p.info,), False, key="FM:panic:%s" % p.info, where=loc(fn["span"]))
             continue
         cons = norm_cons(p.cons)
-        bad = [t for t in cons if t not in (T, L, B)]
+        bad = [norm(t) for (t, v, w) in p.decisions if not about_cell(norm(t))]
         if bad:
             chk.unproven("A1.cell-space", "FM:foreign-term:%s" % fmt_term(bad[0]),
                          "From<Frame> for Message branches on %s, which is not (message type, data length, first data byte)" % fmt_term(bad[0]), loc(fn["span"]))
             continue
-        rows.append({"T": cons.get(T), "L": cons.get(L), "B": cons.get(B), "value": p.value, "cons": cons, "path": p})
+        full = norm_cons(p.cons, rel=True)
+        rows.append({"T": cell_dom(full, T), "L": cell_dom(full, L), "B": cell_dom(full, B), "value": p.value, "cons": cons, "path": p})
     chk.note_analysed("functions", [fn["name"]] + sorted(ev.stats["inlined"]))
     chk.extra.setdefault("paths_enumerated", 0)
     chk.extra["paths_enumerated"] += len(paths)
@@ -224,7 +255,11 @@ def len_classes(rows):
     consts = set([0, 1, 2, 3, 16, 255])
     for r in rows:
         if r["L"]:
-            consts |= set(r["L"][1])
+            vs = sorted(r["L"][1])
+            # boundaries of the admitted set
+            for i, v in enumerate(vs):
+                if i == 0 or vs[i - 1] != v - 1 or i == len(vs) - 1 or vs[i + 1] != v + 1:
+                    consts.add(v)
     more = set()
     for c in consts:
         if c + 1 <= 255:
@@ -354,6 +389,8 @@ def cell_desc(r):
         if x is None:
             return "any"
         if x[0] == "in":
+            if len(x[1]) > 128:
+                return "not{%s}" % ",".join("0x%02X" % v for v in sorted(set(range(256)) - set(x[1])))
             return ",".join("0x%02X" % v for v in sorted(x[1]))
         return "not{%s}" % ",".join("0x%02X" % v for v in sorted(x[1]))
     return "type=%s len=%s byte0=%s" % (d(r["T"]), d(r["L"]), d(r["B"]))
